@@ -38,6 +38,11 @@ def run(ctx):
     ctx.do(rule_newest)
     ctx.do(rule_navigation)
     ctx.do(rule_delegation)
+    # the union is taken over what the MEMBERS answer: each member applies the filters it is handed to every answer (C12) and
+    # answers get() with its newest version (C11)
+    from . import C11 as _C11, C12 as _C12
+    ctx.do_as(_C12.rule_all_answers_filtered, {"C12.all-answers-filtered": "C18.members-answer-exactly"})
+    ctx.do_as(_C11.rule_newest, {"C11.newest": "C18.members-answer-exactly"})
     from .pitfalls import rule_groupby_sorted, rule_single_use_iterators
     ctx.do(rule_groupby_sorted, "C18.iterator-pitfalls", ("stix2.datastore", "stix2.environment", "stix2.utils"))
     ctx.do(rule_single_use_iterators, "C18.iterator-pitfalls", ("stix2.datastore", "stix2.environment", "stix2.utils"))
